@@ -18,3 +18,24 @@ package pubsubmon
 //@   ensures [latest-received] forall i int :: 0 <= i && i < len(res) ==> haskey(mon.metrics.byName, name) && haskey(mon.metrics.byName[name], res[i].Peer) && res[i] == winLatest[mon.metrics.byName[name][res[i].Peer]]
 //@   ensures [members-only] mon.peers != nil && len(res) > 0 ==> forall i int :: 0 <= i && i < len(res) ==> in(res[i].Peer, elems(peers))
 //@   modifies nothing
+
+// ---- C15: the section's saved form: every setting is written from the field of the same name ----
+//@ func (cfg *Config) toJSONConfig
+//@   property C15
+//@   requires cfg != nil
+//@   ensures res != nil && fresh(res)
+//@   ensures [check-interval] res.CheckInterval == cfg.CheckInterval.String()
+//@   ensures [failure-threshold] res.FailureThreshold != nil && *res.FailureThreshold == cfg.FailureThreshold
+//@   modifies nothing
+
+//@ func (cfg *Config) Validate
+//@   property C15
+//@   modifies nothing
+
+// the loaded form (an unparsable interval loads as zero and is then refused by Validate)
+//@ func (cfg *Config) applyJSONConfig
+//@   property C15
+//@   requires cfg != nil && jcfg != nil
+//@   ensures [check-interval] cfg.CheckInterval == libfn("time.ParseDuration", 0, jcfg.CheckInterval)
+//@   ensures [failure-threshold] cfg.FailureThreshold == ite(jcfg.FailureThreshold != nil, *jcfg.FailureThreshold, old(cfg.FailureThreshold))
+//@   modifies heap(Config)
